@@ -13,7 +13,7 @@ from symx.scalar import SymComplex, SymReal
 from .common import EPS, facts, far, far_c, lemma, model_angle, simp, tensor_of, term_of
 
 PID = "C11"
-LEVEL = "other"
+LEVEL = "model_checking"
 CLAIM = (
     "Bounded symbolic verification: tf_pwa.angle.LorentzVector (boost, rest_vector, boost_vector, boost_matrix, M2, Dot), "
     "tf_pwa.data_trans.dalitz and the angle->momentum->angle round trip of tf_pwa.data_trans.helicity_angle / tf_pwa.cal_angle "
